@@ -422,11 +422,14 @@ func TestVerif_C13(t *testing.T) {
 
 	cfgs := []*c13Cfg{
 		{kind: "mutex", cols: []uint64{1, 2}, rows: []uint64{0, 1, 2}},
-		{kind: "bool", cols: []uint64{1, 2}, rows: []uint64{0, 1}},
+		// columns in different containers of the row (the existing-value lookup walks containers)
+		{kind: "bool", cols: []uint64{1, 65537}, rows: []uint64{0, 1}},
+		// ... and rows far apart
+		{kind: "mutex", cols: []uint64{1, 65537}, rows: []uint64{0, 3, 200}},
 	}
 	if c.Thorough() {
-		// columns in different containers of the row, rows far apart
-		cfgs = append(cfgs, &c13Cfg{kind: "mutex", cols: []uint64{1, 65537}, rows: []uint64{0, 3, 200}})
+		cfgs = append(cfgs, &c13Cfg{kind: "bool", cols: []uint64{1, 2}, rows: []uint64{0, 1}},
+			&c13Cfg{kind: "mutex", cols: []uint64{65536 + 5, 3*65536 + 5}, rows: []uint64{1, 2, 4}})
 	}
 	for _, cf := range cfgs {
 		cf := cf
@@ -463,11 +466,11 @@ func TestVerif_C13(t *testing.T) {
 		// Phase B: state-merged BFS, full alphabet.
 		c.RunBFS(hFull, c.Pick(3, 8), c.Pick(5000, 30000))
 		c.ConfirmViolations(hFull)
-		c.Bound("alphabet_full_"+cf.kind, len(hFull.Alphabet))
-		c.Bound("alphabet_depth3_"+cf.kind, len(hMid.Alphabet))
+		c.Bound(fmt.Sprintf("alphabet_full_%s_cols%v_rows%v", cf.kind, cf.cols, cf.rows), len(hFull.Alphabet))
+		c.Bound(fmt.Sprintf("alphabet_depth3_%s_cols%v_rows%v", cf.kind, cf.cols, cf.rows), len(hMid.Alphabet))
 	}
 	c.AddValidated(c.Evaluations)
-	c.Assume("two columns of one shard and three rows (two for bool) are representative: the mutex logic is per column and compares row ids only for equality")
+	c.Assume("two columns of one shard (in the same and in different containers of a row) and three rows (two for bool; adjacent and far apart) are representative: the mutex logic is per column and compares row ids only for equality")
 	if c.Finish() != 0 {
 		t.Fail()
 	}
